@@ -25,20 +25,26 @@ AREAS = {
     "retry": {
         "module": "RetryGen",
         "bridge": "Bridge/RetryBridge.v",
-        # built through the locked make (no dependency on generated files)
-        "targets": ["Bridge/GoPrims.vo", "Bridge/RetryPrims.vo", "Proofs/RetryProofs.vo"],
+        # "prims": files of coq/Bridge without dependency on generated code; like everything under coq/Bridge they are
+        # not part of the project make (lib.gen_coqproject leaves the directory out): they are compiled here, into
+        # the run's scratch directory, mapped to the logical path Shoot.Bridge
+        # "targets": project files the bridge needs, built through the locked make
+        "prims": ["GoPrims", "RetryPrims"],
+        "targets": ["Proofs/RetryProofs.vo"],
         "property": "C20",
     },
     "rest": {
         "module": "RestGen",
         "bridge": "Bridge/RestBridge.v",
-        "targets": ["Bridge/GoPrims.vo", "Bridge/RestPrims.vo", "Proofs/RestRuntimeProofs.vo"],
+        "prims": ["GoPrims", "RestPrims"],
+        "targets": ["Proofs/RestRuntimeProofs.vo"],
         "property": "C19",
     },
     "enum": {
         "module": "EnumGen",
         "bridge": "Bridge/EnumBridge.v",
-        "targets": ["Bridge/GoPrims.vo", "Bridge/EnumPrims.vo", "Model/Enum.vo"],
+        "prims": ["GoPrims", "EnumPrims"],
+        "targets": ["Model/Enum.vo"],
         "property": "C12",
     },
 }
@@ -103,7 +109,19 @@ def translation_tie(run, area):
     ok, log = run.coq_make(spec["targets"])
     if not ok:
         raise lib.CheckBroken("translation tie: make %s failed: %s" % (spec["targets"], log[-1500:]))
-    base = ["coqc", "-Q", str(lib.COQ), "Shoot", "-Q", str(gen), "ShootGen"]
+    bdir = run.scratch / ("bridge_" + area)
+    bdir.mkdir(exist_ok=True)
+    base = ["coqc", "-Q", str(lib.COQ), "Shoot", "-Q", str(bdir), "Shoot.Bridge", "-Q", str(gen), "ShootGen"]
+    for name in spec["prims"]:
+        src = lib.COQ / "Bridge" / (name + ".v")
+        m = lib.FORBIDDEN.search(lib.strip_comments(src.read_text()))
+        if m:
+            return res("unavailable: forbidden vernacular %r in %s" % (m.group(0), src.name), functions=info["functions"])
+        dst = bdir / (name + ".v")
+        dst.write_text(src.read_text())
+        rc, out, err = lib.sh(base + [str(dst)], cwd=gen, timeout=GEN_TIMEOUT)
+        if rc != 0:
+            raise lib.CheckBroken("translation tie: coqc %s failed: %s" % (src, (out + err)[-1500:]))
     rc, out, err = lib.sh(base + [str(genfile)], cwd=gen, timeout=GEN_TIMEOUT)
     if rc != 0:
         _, line, msg = _first_error(out + err)
